@@ -61,7 +61,7 @@ def run_worker(inst, prop):
     cmd = [PYVT, "-m", "vf.worker", inst.module, inst.name, json.dumps(inst.params),
            str(inst.budget), str(inst.path_timeout), prop]
     t0 = time.time()
-    wall_cap = inst.budget * 2.0 + 150
+    wall_cap = inst.budget * 5.0 + 300     # CPU budgets; the machine may be heavily shared
     try:
         p = subprocess.run(cmd, cwd=VERIF, env=_env(), capture_output=True, text=True,
                            timeout=wall_cap)
